@@ -21,12 +21,16 @@ def _R(exc, site=""):
     return Raise(exc, site)
 
 
+def _byte(x, k):
+    return x % 256 if k == 0 else (x / (256 ** k)) % 256
+
+
 def le_bytes(x, n):
-    return S.seq_of([(x / (256 ** k)) % 256 for k in range(n)], S.I)
+    return S.seq_of([_byte(x, k) for k in range(n)], S.I)
 
 
 def be_bytes(x, n):
-    return S.seq_of([(x / (256 ** k)) % 256 for k in reversed(range(n))], S.I)
+    return S.seq_of([_byte(x, k) for k in reversed(range(n))], S.I)
 
 
 def le_value(seq, n):
@@ -121,14 +125,16 @@ def call(ex, st, name, args, kwargs, node):
                 continue
             if f == "B":
                 val = V("int", b.t[z3.IntVal(0)])
-            elif f in ("<d", ">d"):
+            elif f == "<d":
+                val = V("float", eng.spec_apply("spec.core", "le_value", [b]).t)
+            elif f == "<f":
+                val = V("float", eng.fop("of_single", eng.spec_apply("spec.core", "le_value", [b]).t))
+            elif f in (">d", ">f"):
+                # big-endian: the value of the reversed string (no identity needed so far)
                 seq = b.t
-                bits = le_value(seq, 8) if f[0] == "<" else sum_be(seq, 8)
-                val = V("float", bits)
-            elif f in ("<f", ">f"):
-                seq = b.t
-                b32 = le_value(seq, 4) if f[0] == "<" else sum_be(seq, 4)
-                val = V("float", eng.fop("of_single", b32))
+                n = 8 if f[1] == "d" else 4
+                bits = sum_be(seq, n)
+                val = V("float", bits if n == 8 else eng.fop("of_single", bits))
             else:
                 val = V("int", sum_be(b.t, 4))
             yield st1, V("tuple", z3.Unit(box(val)))
